@@ -56,3 +56,24 @@ Theorem C20_patch_changes_only_the_address : forall op dest op', patch_op op des
   \/ (exists a, op = OpRestore a /\ op' = OpRestore (snd dest)).
 Proof. exact patch_op_spec. Qed.
 Print Assumptions C20_patch_changes_only_the_address.
+
+(* ---- whole programs of ANY statements (Proofs/SymSeg.v): line symbols are resolved by number, whatever surrounds them ---- *)
+From BL Require Import Lang.Ast Proofs.Flow Proofs.DataSeg Proofs.SymSeg.
+
+(* statement code only defines local (negative) symbols, so no amount of code appended after a line symbol can redefine it *)
+Theorem C20_statement_symbols_local : forall s, snd (cg_stmt s) = [] ->
+  (l_cur (snd (fst (cg_stmt s))) <= 0)%Z
+  /\ forall k v, In (k, v) (l_syms (snd (fst (cg_stmt s)))) -> (l_cur (snd (fst (cg_stmt s))) <= k < 0)%Z.
+Proof. exact cg_stmt_inv. Qed.
+Print Assumptions C20_statement_symbols_local.
+
+(* in a program compiled without error, whatever lines come before and after line n (remarks, unreachable code, more or
+   fewer statements), the symbol of n is the address at which the code of the lines before it ends, together with the
+   number of DATA constants in those lines *)
+Theorem C20_line_symbol_addresses : forall before n ss after p0,
+  pg_errors (compile_from p0 (before ++ (n, ss) :: after)) = [] -> PInv (pg_link p0) -> ~ In n (map fst after) ->
+  zassoc_get (Z.of_N n) (l_syms (pg_link (compile_from p0 (before ++ (n, ss) :: after))))
+  = Some (lenN (l_ops (pg_link (compile_from p0 before))),
+          lenN (l_data (pg_link p0) ++ flat_map (fun e => line_vals (snd e)) before)).
+Proof. exact line_symbol_addresses. Qed.
+Print Assumptions C20_line_symbol_addresses.
